@@ -313,7 +313,23 @@ impl Check for Totality {
         self.run_seed_inner(seed, None)
     }
     fn case_of_seed(&self, seed: u64) -> Value {
-        json!({"values_seed": seed.to_string()})
+        // the valid encodings whose complete single-fault space this run enumerates
+        let hooks = SeqHooks::new(ClockCfg::default(), 3, 4);
+        let _i = Installed::new(hooks);
+        let vals = gen_values(seed);
+        let mut r = Rng::stream(seed, 5);
+        let mut encs: Vec<Value> = vec![];
+        for _ in 0..4 {
+            let v = &vals[r.below(vals.len() as u64) as usize];
+            for codec in [Codec::Text, Codec::Json] {
+                if let Ok(Some(enc)) = round_trip(v, codec) {
+                    if enc.len() <= 1500 {
+                        encs.push(json!({"type": v.type_name(), "codec": format!("{codec:?}"), "encoding": enc, "fed_to": parsers_for(v, codec)}));
+                    }
+                }
+            }
+        }
+        json!({"values_seed": seed.to_string(), "valid_encodings_whose_fault_space_is_enumerated": encs})
     }
     fn run_case(&self, case: &Value) -> Result<RunOut, String> {
         if let Some(inputs) = case.get("inputs") {
